@@ -28,9 +28,9 @@ namespace PySMT.Build
 
 /-- `FNode.bv_width()` (`fnode.py:468-493`). `none` = the method raises.
 A `bvComp` node answers `1` (its constructor always stores the payload `(1,)`). -/
-def bvWidth : Term → Option Nat
+def fnodeWidth : Term → Option Nat
   | .node op args p =>
-    let ws := args.map bvWidth
+    let ws := args.map fnodeWidth
     match op, p with
     | .bvConst, .bv _ w => some w
     | .symbol, .sym s => if s.params.isEmpty then (match s.ret with | .bv w => some w | _ => none) else none
@@ -65,13 +65,13 @@ def dictInsert (k v : Term) : List (Term × Term) → List (Term × Term)
   | (k', v') :: rest => if k' = k then (k', v) :: rest else (k', v') :: dictInsert k v rest
 
 /-- `dict(pairs)` -/
-def dictOf (ps : List (Term × Term)) : List (Term × Term) :=
+def pyDict (ps : List (Term × Term)) : List (Term × Term) :=
   ps.foldl (fun d kv => dictInsert kv.1 kv.2 d) []
 
 /-- payload width of a unary/binary bit-vector operator after rebuilding: `bv_width()` of the
 first new child (`p` when that raises; then `rebuildOk` is `false`) -/
 def bvPayload (p : Payload) (a : Term) : Payload :=
-  match bvWidth a with
+  match fnodeWidth a with
   | some w => .ints [w]
   | none => p
 
@@ -122,7 +122,7 @@ def mkQuant (op : Op) (p : Payload) : List Term → Term
 /-- `BVConcat(a, b)` -/
 def mkConcat (p : Payload) : List Term → Term
   | [a, b] =>
-    (match bvWidth a, bvWidth b with
+    (match fnodeWidth a, fnodeWidth b with
      | some wa, some wb => .node .bvConcat [a, b] (.ints [wa + wb])
      | _, _ => .node .bvConcat [a, b] p)
   | as => .node .bvConcat as p
@@ -134,20 +134,20 @@ def mkExtract (p : Payload) (as : List Term) : Term :=
 /-- `BVRol(a, steps)` / `BVRor(a, steps)` -/
 def mkRot (op : Op) (p : Payload) : List Term → Term
   | [a] =>
-    (match p, bvWidth a with
+    (match p, fnodeWidth a with
      | .ints [_, k], some w => .node op [a] (.ints [w, k])
      | _, _ => .node op [a] p)
   | as => .node op as p
 /-- `BVZExt(a, increase)` / `BVSExt(a, increase)` -/
 def mkExt (op : Op) (p : Payload) : List Term → Term
   | [a] =>
-    (match p, bvWidth a with
+    (match p, fnodeWidth a with
      | .ints [_, inc], some w => .node op [a] (.ints [w + inc, inc])
      | _, _ => .node op [a] p)
   | as => .node op as p
 /-- `Array(idx_type, default, dict(zip(keys, values)))` -/
 def mkArray (p : Payload) : List Term → Term
-  | d :: rest => .node .arrayValue (d :: unpairs ((dictOf (pairsOf rest)).filter (fun kv => kv.2 ≠ d))) p
+  | d :: rest => .node .arrayValue (d :: unpairs ((pyDict (pairsOf rest)).filter (fun kv => kv.2 ≠ d))) p
   | [] => .node .arrayValue [] p
 /-- the unary / binary bit-vector operators whose payload is the width of the first argument -/
 def mkBvOp (op : Op) (p : Payload) : List Term → Term
@@ -188,11 +188,11 @@ def rebuildOk (op : Op) (p : Payload) (as : List Term) : Bool :=
    | .bvExtract =>
      (match p, as with
       | .ints [_, lo, hi], [a] =>
-        (match bvWidth a with | some w => decide (lo ≤ hi) && decide (hi - lo + 1 ≤ w) | none => false)
+        (match fnodeWidth a with | some w => decide (lo ≤ hi) && decide (hi - lo + 1 ≤ w) | none => false)
       | _, _ => false)
-   | .bvConcat => (match as with | [a, b] => (bvWidth a).isSome && (bvWidth b).isSome | _ => false)
-   | .bvRol | .bvRor | .bvZext | .bvSext => (match as with | [a] => (bvWidth a).isSome | _ => false)
-   | op => !isBvSameWidthOp op || (match as with | a :: _ => (bvWidth a).isSome | [] => false))
+   | .bvConcat => (match as with | [a, b] => (fnodeWidth a).isSome && (fnodeWidth b).isSome | _ => false)
+   | .bvRol | .bvRor | .bvZext | .bvSext => (match as with | [a] => (fnodeWidth a).isSome | _ => false)
+   | op => !isBvSameWidthOp op || (match as with | a :: _ => (fnodeWidth a).isSome | [] => false))
   && (rebuild op p as).typeOf.isSome
 
 /-! ## Normal terms: what the constructors produce
@@ -210,27 +210,27 @@ def normalNode (op : Op) (p : Payload) (args : List Term) : Bool :=
   | .forall_ | .exists_ => p != .qvars []
   | .bvConcat =>
     (match args with
-     | [a, b] => (match bvWidth a, bvWidth b with | some wa, some wb => p == .ints [wa + wb] | _, _ => false)
+     | [a, b] => (match fnodeWidth a, fnodeWidth b with | some wa, some wb => p == .ints [wa + wb] | _, _ => false)
      | _ => false)
   | .bvExtract => (match p with | .ints [w, lo, hi] => w == hi - lo + 1 | _ => false)
   | .bvRol | .bvRor =>
     (match args with
-     | [a] => (match p, bvWidth a with | .ints [w, _], some wa => w == wa | _, _ => false)
+     | [a] => (match p, fnodeWidth a with | .ints [w, _], some wa => w == wa | _, _ => false)
      | _ => false)
   | .bvZext | .bvSext =>
     (match args with
-     | [a] => (match p, bvWidth a with | .ints [w, inc], some wa => w == wa + inc | _, _ => false)
+     | [a] => (match p, fnodeWidth a with | .ints [w, inc], some wa => w == wa + inc | _, _ => false)
      | _ => false)
   | .bvComp => p == .ints [1]
   | .arrayValue =>
     (match args with
-     | d :: rest => decide (rest = unpairs ((dictOf (pairsOf rest)).filter (fun kv => kv.2 ≠ d)))
+     | d :: rest => decide (rest = unpairs ((pyDict (pairsOf rest)).filter (fun kv => kv.2 ≠ d)))
      | [] => false)
   | .pow => false
   | op =>
     !isBvSameWidthOp op ||
       (match args with
-       | a :: _ => (match bvWidth a with | some w => p == .ints [w] | none => false)
+       | a :: _ => (match fnodeWidth a with | some w => p == .ints [w] | none => false)
        | [] => false)
 
 def normal : Term → Bool
